@@ -41,7 +41,8 @@ UN = {
 
 
 class Dag:
-    def __init__(self, path, eps_to_zero=False, merge_ulps=0):
+    def __init__(self, path, eps_to_zero=False, merge_ulps=0, algebraic_sqrt2=False):
+        self.algebraic_sqrt2 = algebraic_sqrt2
         self.merge_ulps = merge_ulps
         self.merged_constants = 0
         self.nodes = []
@@ -81,6 +82,11 @@ class Dag:
             else: raise ValueError(line)
         if merge_ulps:
             self.merge_constants(merge_ulps)
+        if algebraic_sqrt2:
+            # literals that are the f64 images of a + b*sqrt(2) are read as that algebraic number (the std constant
+            # SQRT_2 and rustc's constant-folded 1 +- SQRT_2); ('alg', a, b) nodes are not folded
+            tab = {2.0 ** 0.5: (0, 1), 1.0 + 2.0 ** 0.5: (1, 1), 1.0 - 2.0 ** 0.5: (1, -1), 2.0 * 2.0 ** 0.5: (0, 2)}
+            self.nodes = [('alg',) + tab[n[1]] if (n[0] == 'const' and n[1] in tab) else n for n in self.nodes]
         self.fold_constants()
 
     def merge_constants(self, ulps):
@@ -108,6 +114,21 @@ class Dag:
         N = len(self.nodes)
         self.cval = [None] * N
         self.nonfinite_consts = []
+        import bisect
+        lits = sorted(set(n[1] for n in self.nodes if n[0] == 'const' and math.isfinite(n[1]) and n[1] != 0.0)) if self.merge_ulps else []
+        self.snapped_constants = 0
+
+        def snap(fr):
+            """a folded constant within merge_ulps of a literal constant of the DAG is identified with it (the library
+            computed the same quantity in f64, e.g. 0.5*(s_i+s_j) precomputed vs (s_i+s_j)*0.5 on dual numbers)"""
+            if not lits or fr == 0: return fr
+            x = float(fr)
+            j = bisect.bisect_left(lits, x)
+            for c in lits[max(0, j - 1):j + 1]:
+                if Fraction(c) != fr and abs(c - x) <= self.merge_ulps * 2.220446049250313e-16 * abs(c):
+                    self.snapped_constants += 1
+                    return Fraction(c)
+            return fr
         for i, n in enumerate(self.nodes):
             k = n[0]
             try:
@@ -119,15 +140,15 @@ class Dag:
                 elif k in ('add', 'sub', 'mul', 'div'):
                     a, b = self.cval[n[1]], self.cval[n[2]]
                     if a is not None and b is not None:
-                        if k == 'add': self.cval[i] = a + b
-                        elif k == 'sub': self.cval[i] = a - b
-                        elif k == 'mul': self.cval[i] = a * b
-                        elif b != 0: self.cval[i] = a / b
+                        if k == 'add': self.cval[i] = snap(a + b)
+                        elif k == 'sub': self.cval[i] = snap(a - b)
+                        elif k == 'mul': self.cval[i] = snap(a * b)
+                        elif b != 0: self.cval[i] = snap(a / b)
                 elif k == 'neg':
                     if self.cval[n[1]] is not None: self.cval[i] = -self.cval[n[1]]
                 elif k == 'powi':
                     a = self.cval[n[1]]
-                    if a is not None and (n[2] >= 0 or a != 0): self.cval[i] = a ** n[2]
+                    if a is not None and (n[2] >= 0 or a != 0): self.cval[i] = snap(a ** n[2])
             except (ZeroDivisionError, OverflowError):
                 pass
 
@@ -186,6 +207,7 @@ class Sweeper:
                 try:
                     if cv is not None: v = float(cv)
                     elif n[0] == 'const': v = n[1]
+                    elif n[0] == 'alg': v = n[1] + n[2] * 2.0 ** 0.5
                     elif n[0] == 'var': v = self.pts[k][n[1]]
                     elif n[0] == 'add': v = val[n[1]][k] + val[n[2]][k]
                     elif n[0] == 'sub': v = val[n[1]][k] - val[n[2]][k]
@@ -250,6 +272,9 @@ class Sweeper:
             if x in cache: return cache[x]
             n = nodes[x]
             if dag.cval[x] is not None: e = self.rat(dag.cval[x])
+            elif n[0] == 'alg':
+                S = z3.Real('sqrt2'); e = n[1] + n[2] * S
+                axioms.extend([S * S == 2, S > 0])
             elif n[0] == 'var': e = self.lam if n[1] == LAMVAR else self.rv(x)
             elif x in canon and canon[x][0] != x:
                 r, d = canon[x]
@@ -402,6 +427,8 @@ class Sweeper:
                 self.canon[i] = (i, 0); bysig.setdefault(sig([float(dag.cval[i])] * K), []).append(i); continue
             if n[0] == 'const':  # non-finite constant
                 self.canon[i] = (i, 0); continue
+            if n[0] == 'alg':
+                self.canon[i] = (i, 0); bysig.setdefault(sig(self.val[i]), []).append(i); continue
             if n[0] == 'var':
                 self.canon[i] = (i, 0)
                 if n[1] not in self.fixed: self.sign[i] = 1
@@ -509,11 +536,16 @@ class Sweeper:
         groups = {}    # (fname, sig) -> [(argnode, var)]
         cache = {}
         ax = []
+        alg_added = []
 
         def TT(x):
             if x in cache: return cache[x]
             n = nodes[x]
             if dag.cval[x] is not None: e = self.rat(dag.cval[x])
+            elif n[0] == 'alg':
+                S = z3.Real('sqrt2'); e = n[1] + n[2] * S
+                if not alg_added:
+                    ax.extend([S * S == 2, S > 0]); alg_added.append(1)
             elif n[0] == 'var': e = self.lam if n[1] == LAMVAR else self.rv(x)
             elif n[0] in ('add', 'sub', 'mul', 'div'):
                 a, b = TT(n[1]), TT(n[2])
@@ -586,6 +618,13 @@ class Sweeper:
                         pass
                 if fname == 'sqrt': ax.extend([var >= 0, var * var == ea])
             gvar[i] = var
+        # definedness domain: the claim is made where both executions are defined (SMT-LIB division is total,
+        # x/0 would be an unconstrained value): every denominator occurring in the cones is non-zero
+        for i in sorted(live):
+            n = nodes[i]
+            if dag.cval[i] is not None: continue
+            if n[0] == 'div' and dag.cval[n[2]] is None: ax.append(TT(n[2]) != 0)
+            elif n[0] == 'powi' and n[2] < 0 and dag.cval[n[1]] is None: ax.append(TT(n[1]) != 0)
         for a, b, d, name, wa, wb in dag.outs:
             if a == b and d == 0: continue
             if prove_eq(TT(b), TT(a) * self.lampow(d), timeout):
